@@ -265,10 +265,12 @@ PROPS['C05'] = {
              'distinct (scripts, sequence of context switches).'),
     'min_nontrivial': [500, 5000],
     'require_classes': ['scheduling_programs:resumed_from_ready_queue', 'scheduling_programs:direct_transfers', 'scheduling_programs:programs_with_3plus_queued'],
-    'single_thread_scenarios': ('scheduling_programs',),
+    'single_thread_scenarios': ('scheduling_programs', 'pool_stop_from_coroutine'),
     'jobs': [
         J('prog_asan', 'c05.cpp', 'asan', [60000, 3000000], scenario='scheduling_programs', threads=1),
         J('prog_rel', 'c05.cpp', 'rel', [100000, 6000000], scenario='scheduling_programs', threads=1),
+        J('poolstop_asan', 'c05.cpp', 'asan', [40000, 800000], scenario='pool_stop_from_coroutine', threads=1),
+        J('poolstop_rel', 'c05.cpp', 'rel', [80000, 2000000], scenario='pool_stop_from_coroutine', threads=1),
         J('prog_casan', 'c05.cpp', 'casan', [0, 1500000], scenario='scheduling_programs', threads=1, tiers=(T,)),
         J('prog_crel', 'c05.cpp', 'crel', [0, 3000000], scenario='scheduling_programs', threads=1, tiers=(T,)),
     ],
